@@ -42,7 +42,15 @@ pub enum Case {
     /// the command-line tool against a real loopback Java server: the handshake it sends for `-i <address or name>`, `--hostname`, `--protocol-version`
     JavaCli { status: JavaStatus, hostname: Option<String>, protocol_version: Option<u32>, by_name: bool },
     /// Eco over HTTP (real loopback server: ureq bypasses the scripted transport): request line and Host header
-    Eco { v6: bool, hostname: Option<String>, via_generic: bool, idx: u64 },
+    Eco {
+        v6: bool,
+        hostname: Option<String>,
+        via_generic: bool,
+        idx: u64,
+        /// no port given: the destination has to be the documented default port (observed on real loopback listeners)
+        #[serde(default)]
+        port_omitted: bool,
+    },
 }
 
 pub struct C09;
@@ -182,8 +190,8 @@ impl Prop for C09 {
             0u8 .. 4,
         )
             .prop_map(|(status, hostname, protocol_version, port, via_extra, route)| Case::Java { status, hostname, protocol_version, port, via_extra, route });
-        let eco = (any::<bool>(), prop::option::of(prop_oneof![Just("eco.example.net".to_string()), "[a-z]([a-z0-9-]{0,20}[a-z0-9])?(\\.[a-z][a-z0-9]{0,9}){0,3}".prop_map(|s| s)]), any::<bool>(), 0u64 .. 64)
-            .prop_map(|(v6, hostname, via_generic, idx)| Case::Eco { v6, hostname, via_generic, idx });
+        let eco = (any::<bool>(), prop::option::of(prop_oneof![Just("eco.example.net".to_string()), "[a-z]([a-z0-9-]{0,20}[a-z0-9])?(\\.[a-z][a-z0-9]{0,9}){0,3}".prop_map(|s| s)]), any::<bool>(), 0u64 .. 64, prop::bool::weighted(0.05))
+            .prop_map(|(v6, hostname, via_generic, idx, port_omitted)| Case::Eco { v6, hostname, via_generic, idx, port_omitted });
         let java_cli = (java_status(), prop::option::of(text(&[], 40).prop_filter("non-empty", |s| !s.is_empty())), prop::option::of(prop_oneof![0u32 .. 1000, 0u32 ..= i32::MAX as u32]), any::<bool>())
             .prop_map(|(status, hostname, protocol_version, by_name)| Case::JavaCli { status, hostname, protocol_version, by_name });
         prop_oneof![240 => game, 120 => valve, 80 => gs3, 80 => java, 10 => eco, 3 => java_cli].boxed()
@@ -303,7 +311,23 @@ impl Prop for C09 {
                     o.fail(format!("C09|gamespy::three::query|challenge echo|query failed {}", run.ended.kind_str()), json!({"challenge": st.challenge, "wire": render_log(&run.log[.. run.log.len().min(12)])}));
                 }
             }
-            Case::Eco { v6, hostname, via_generic, idx } => {
+            Case::Eco { v6, hostname, via_generic, idx, port_omitted } => {
+                if *port_omitted {
+                    o.label("eco-port-omitted");
+                    o.nontrivial = true;
+                    let documented = default_port("eco").unwrap_or(0);
+                    match crate::props::c14::eco_destination_without_port(*via_generic) {
+                        None => {
+                            o.excluded = Some("eco default-port observation skipped: loopback ports 3000/3001 are not free".into());
+                            o.nontrivial = false;
+                        }
+                        Some(hit) if hit != vec![documented] => {
+                            o.fail("C09|eco::query|port omitted|the connection does not go to the documented default port", json!({"connects_to": hit, "documented_default": documented, "via_generic": via_generic}));
+                        }
+                        Some(_) => {}
+                    }
+                    return o;
+                }
                 use crate::models::eco::{eco_state, thread_server, thread_server_v6};
                 o.label(format!("eco-http ipv{} host-name={} via-{}", if *v6 { 6 } else { 4 }, hostname.is_some(), if *via_generic { "generic" } else { "module" }));
                 o.nontrivial = true;
@@ -399,43 +423,46 @@ impl Prop for C09 {
                         o.fail("C09|setup|cannot start the CLI", json!({"path": cli}));
                         return o;
                     };
-                    // give the server thread a moment to file what it has read
+                    // the tool has exited, so everything it sent is on its way: the server thread gets up to a second to file it
                     let mut bytes: Vec<u8> = Vec::new();
-                    for _ in 0 .. 50 {
+                    let mut verdict: Option<(String, serde_json::Value)> = None;
+                    for _ in 0 .. 100 {
                         bytes = server.seen.lock().unwrap().received.concat();
-                        if bytes.len() >= 9 + tail.len() {
+                        let detail = |what: serde_json::Value| json!({"args": args, "exit": out.status.code(), "stderr": String::from_utf8_lossy(&out.stderr).chars().take(300).collect::<String>(), "server_received": hex(&bytes), "info": what});
+                        // two frames: handshake, status request
+                        let mut p = 0usize;
+                        let mut len = 0usize;
+                        let mut shift = 0;
+                        while let Some(b) = bytes.get(p) {
+                            len |= ((b & 0x7F) as usize) << shift;
+                            shift += 7;
+                            p += 1;
+                            if b & 0x80 == 0 || shift > 28 {
+                                break;
+                            }
+                        }
+                        // (the server answers and closes as soon as it has the status request: whether the ping request that follows is still read is a race)
+                        let incomplete = bytes.is_empty() || bytes.len() < p + len + 2;
+                        verdict = if bytes.is_empty() {
+                            Some(("nothing reached the server".into(), detail(json!({}))))
+                        } else if bytes.len() < p + len {
+                            Some(("java handshake framing".into(), detail(json!({}))))
+                        } else {
+                            match parse_handshake(&bytes[.. p + len]) {
+                                None => Some(("java handshake framing".into(), detail(json!({})))),
+                                Some(h) if h.protocol != want_pv => Some(("java handshake protocol version".into(), detail(json!({"sent": h.protocol, "expected": want_pv})))),
+                                Some(h) if h.host != want_host => Some(("java handshake host name".into(), detail(json!({"sent": h.host, "expected": want_host})))),
+                                Some(h) if h.port_be != port => Some(("java handshake port (big-endian)".into(), detail(json!({"sent_be": h.port_be, "expected": port})))),
+                                Some(h) if h.next_state != 1 => Some(("java handshake next state".into(), detail(json!({"sent": h.next_state})))),
+                                Some(_) if bytes.len() < p + len + 2 || !tail.starts_with(&bytes[p + len ..]) => Some(("status request".into(), detail(json!({"after_handshake": hex(&bytes[p + len ..]), "expected": hex(&tail)})))),
+                                Some(_) => None,
+                            }
+                        };
+                        if verdict.is_none() || !incomplete {
                             break;
                         }
                         std::thread::sleep(std::time::Duration::from_millis(10));
                     }
-                    let detail = |what: serde_json::Value| json!({"args": args, "exit": out.status.code(), "stderr": String::from_utf8_lossy(&out.stderr).chars().take(300).collect::<String>(), "server_received": hex(&bytes), "info": what});
-                    // two frames: handshake, status request
-                    let mut p = 0usize;
-                    let mut len = 0usize;
-                    let mut shift = 0;
-                    while let Some(b) = bytes.get(p) {
-                        len |= ((b & 0x7F) as usize) << shift;
-                        shift += 7;
-                        p += 1;
-                        if b & 0x80 == 0 || shift > 28 {
-                            break;
-                        }
-                    }
-                    let verdict: Option<(String, serde_json::Value)> = if bytes.is_empty() {
-                        Some(("nothing reached the server".into(), detail(json!({}))))
-                    } else if bytes.len() < p + len {
-                        Some(("java handshake framing".into(), detail(json!({}))))
-                    } else {
-                        match parse_handshake(&bytes[.. p + len]) {
-                            None => Some(("java handshake framing".into(), detail(json!({})))),
-                            Some(h) if h.protocol != want_pv => Some(("java handshake protocol version".into(), detail(json!({"sent": h.protocol, "expected": want_pv})))),
-                            Some(h) if h.host != want_host => Some(("java handshake host name".into(), detail(json!({"sent": h.host, "expected": want_host})))),
-                            Some(h) if h.port_be != port => Some(("java handshake port (big-endian)".into(), detail(json!({"sent_be": h.port_be, "expected": port})))),
-                            Some(h) if h.next_state != 1 => Some(("java handshake next state".into(), detail(json!({"sent": h.next_state})))),
-                            Some(_) if bytes[p + len ..] != tail[..] => Some(("status request".into(), detail(json!({"after_handshake": hex(&bytes[p + len ..]), "expected": hex(&tail)})))),
-                            Some(_) => None,
-                        }
-                    };
                     match verdict {
                         None => {
                             last = None;
